@@ -428,7 +428,7 @@ VALUE = st.one_of(
     st.just({"t": "missing"}),
     st.just({"t": "str", "v": [""]}),
 )
-GLYPH_CHARS = "|+-`~=:#>ab │├└╰"
+GLYPH_CHARS = "|+-`~=:#>ab │├└╰｜＋漢└é\u0301"  # incl. full-width forms, an ideograph and a combining accent: 'width' is the number of characters
 
 
 @st.composite
@@ -444,7 +444,7 @@ def custom_style(draw):
 IDENT = st.one_of(
     st.text(alphabet="abcdefgh_", min_size=1, max_size=4),
     # names where one is a prefix of another and the longer one goes on with a digit or an underscore
-    st.sampled_from(["a", "a1", "a10", "ab", "a_", "x", "x2", "id", "id0", "width", "width2", "width_max", "B", "b"]),
+    st.sampled_from(["a", "a1", "a10", "ab", "a_", "x", "x2", "x9", "x10", "col2", "col11", "v03", "v1", "id", "id0", "width", "width2", "width_max", "B", "b"]),
     # names that begin or end like the ones the reprs treat specially, and names of read-only node properties (legal data keys)
     st.sampled_from(["names", "name_de", "namespace", "nam", "rename", "targets", "target_id", "childrens", "parents", "size", "depth", "height", "path", "is_leaf"]),
 ).filter(lambda k: k not in ("parent", "children", "name", "separator"))
@@ -486,7 +486,7 @@ def random_cases(draw):
     return case
 
 
-ENUM_STYLES = ["ascii", "cont", "round", "double", "double-class", ["|", "+", "`"], ["I  ", "T--", "L--"]]
+ENUM_STYLES = ["ascii", "cont", "round", "double", "double-class", ["|", "+", "`"], ["I  ", "T--", "L--"], ["｜ ", "＋－", "└漢"]]
 
 
 def _enum_cases(max_nodes, index, count):
@@ -502,6 +502,17 @@ def _enum_cases(max_nodes, index, count):
                 for childiter in ("list", "reversed", "sort", "filter", "genfilter"):
                     for maxlevel in [None, -1] + list(range(0, height + 3)) + sorted({1.5, max(height - 0.5, 0.5)}):
                         yield {"kind": "rows", "shape": forest.to_list(shape), "start": start, "style": style, "childiter": childiter, "maxlevel": maxlevel, "cls": ("Node", "EqNode", "LenNode", "Node", "FalsyNode")[k % 5]}
+
+
+def _repr_cases():
+    """Attribute names whose plain order differs from other plausible orders (numbers inside names, case, underscores):
+    'sorted by name' is the order of the names as strings."""
+    sets = [["x9", "x10", "x2"], ["col2", "col11", "col1"], ["v03", "v1", "v1_", "v"], ["B", "a", "_h", "b", "A"], ["k_1", "k1", "k-1".replace("-", "_"), "k10", "k9"], ["é", "e", "z", "E"]]
+    for cls in ("Node", "AnyNode"):
+        for j, names_ in enumerate(sets):
+            for order in (names_, list(reversed(names_))):
+                attrs = {name: i for i, name in enumerate(order)}
+                yield {"kind": "repr", "cls": cls, "shape": [[]], "sep": "/", "names": ["r", "c"], "attrs": [attrs, dict(reversed(list(attrs.items())))], "mutations": []}
 
 
 def _linebreak_cases():
@@ -537,7 +548,7 @@ def plan(tier, seed):
     tasks = [{"engine": "enum", "max_nodes": max_nodes, "index": i, "count": nshards * 2} for i in range(nshards * 2)]
     tasks += [{"engine": "hyp", "examples": examples, "seed": seed * 1000 + i} for i in range(nshards)]
     tasks += [{"engine": "wide", "widths": [w]} for w in ((300, 520) if tier == "quick" else (257, 258, 300, 520, 1500))]
-    tasks += [{"engine": "linebreaks"}]
+    tasks += [{"engine": "linebreaks"}, {"engine": "reprsets"}]
     return tasks
 
 
@@ -549,7 +560,9 @@ def run_task(task, acc):
                 acc.add_violation(case, exc)
                 break
         return
-    if task["engine"] == "linebreaks":
+    if task["engine"] == "reprsets":
+        acc.run_enum(check_case, _repr_cases())
+    elif task["engine"] == "linebreaks":
         acc.run_enum(check_case, _linebreak_cases())
     elif task["engine"] == "enum":
         acc.run_enum(check_case, _enum_cases(task["max_nodes"], task["index"], task["count"]))
